@@ -5,4 +5,8 @@
 #[cfg(kani)]
 pub mod bn;
 #[cfg(kani)]
+pub mod tables;
+#[cfg(kani)]
+pub mod c02;
+#[cfg(kani)]
 pub mod c04;
